@@ -34,3 +34,34 @@ pub fn strings_join(v: &Vec<String>, sep: &str) -> (r: String)
 pub fn string_eq_str(a: &String, b: &str) -> (r: bool)
     ensures r == (str_bytes(a@) == b.spec_bytes())
 { unimplemented!() }
+
+/// `s.split(c)` materialised: `s.split(c).collect::<Vec<&str>>()`
+#[verifier::external_body]
+pub fn str_split_to_vec<'a>(s: &'a str, c: char) -> (r: Vec<&'a str>)
+    requires (c as u32) < 128
+    ensures
+        r@.len() == split(s.spec_bytes(), c as u8).len(),
+        forall|i: int| 0 <= i < r@.len() ==> (#[trigger] r@[i]).spec_bytes() == split(s.spec_bytes(), c as u8)[i],
+{ unimplemented!() }
+
+/// `s.splitn(2, c).collect::<Vec<&str>>()`: one piece if `c` does not occur, else the text before and after its first occurrence
+#[verifier::external_body]
+pub fn str_splitn2<'a>(s: &'a str, c: char) -> (r: Vec<&'a str>)
+    requires (c as u32) < 128
+    ensures
+        first_index(s.spec_bytes(), c as u8, 0) >= s.spec_bytes().len() ==> r@.len() == 1 && r@[0].spec_bytes() == s.spec_bytes(),
+        first_index(s.spec_bytes(), c as u8, 0) < s.spec_bytes().len() ==> r@.len() == 2 && r@[0].spec_bytes() == split_first(s.spec_bytes(), c as u8).0
+            && r@[1].spec_bytes() == split_first(s.spec_bytes(), c as u8).1,
+{ unimplemented!() }
+
+/// HashMap::get_mut (not specified by vstd): Some(&mut v) iff the key is present; the map's final value is the old map with the
+/// key re-bound to the final value written through the reference
+pub uninterp spec fn map_updated_at_borrowed<K, V, Q: ?Sized>(m0: Map<K, V>, k: &Q, v: V, m1: Map<K, V>) -> bool;
+pub broadcast axiom fn axiom_map_updated_same_key<K, V>(m0: Map<K, V>, k: &K, v: V, m1: Map<K, V>)
+    ensures #[trigger] map_updated_at_borrowed::<K, V, K>(m0, k, v, m1) <==> m1 == m0.insert(*k, v);
+pub assume_specification<'a, K: std::cmp::Eq + std::hash::Hash + std::borrow::Borrow<Q>, V, S: std::hash::BuildHasher, A: std::alloc::Allocator, Q: ?Sized + std::hash::Hash + std::cmp::Eq> [HashMap::<K,V,S,A>::get_mut::<Q>] (m: &'a mut HashMap<K,V,S,A>, k: &Q) -> (r: Option<&'a mut V>)
+    ensures
+        match r {
+            Some(x) => contains_borrowed_key(old(m)@, k) && maps_borrowed_key_to_value(old(m)@, k, *x) && map_updated_at_borrowed(old(m)@, k, *final(x), final(m)@),
+            None => !contains_borrowed_key(old(m)@, k) && final(m)@ == old(m)@,
+        };
